@@ -225,6 +225,12 @@ pub struct MixCase {
     pub maintenance_holders: u8,
     pub sync_state_calls: u8,
     pub spacing_ms: u8,
+    /// perf.apply_channel_len of the node (0: default 2048) - a small value lets apply triggers back up
+    #[serde(default)]
+    pub apply_channel_len: u8,
+    /// further chunked versions (rows each), all delivered last chunk first, all in one burst
+    #[serde(default)]
+    pub chunked: Vec<u16>,
 }
 
 pub fn mix_strategy() -> impl Strategy<Value = MixCase> {
@@ -236,12 +242,20 @@ pub fn mix_strategy() -> impl Strategy<Value = MixCase> {
         0u8..6,
         2u8..30,
         0u8..6,
+        prop_oneof![1 => Just(0u8), 1 => 1u8..4],
+        proptest::collection::vec(30u16..160, 0..7),
     )
-        .prop_map(|(local, remote, big_rows, cancelled_requests, maintenance_holders, sync_state_calls, spacing_ms)| MixCase { local, remote, big_rows, cancelled_requests, maintenance_holders, sync_state_calls, spacing_ms })
+        .prop_map(|(local, remote, big_rows, cancelled_requests, maintenance_holders, sync_state_calls, spacing_ms, apply_channel_len, chunked)| MixCase { local, remote, big_rows, cancelled_requests, maintenance_holders, sync_state_calls, spacing_ms, apply_channel_len, chunked })
 }
 
 async fn run_mix(case: &MixCase, info: &mut CaseInfo, root: std::path::PathBuf) -> Result<(), Fail> {
-    let mut cl = Cluster::start(&root, |_| {}).await?;
+    let acl = case.apply_channel_len as usize;
+    let mut cl = Cluster::start(&root, move |c| {
+        if acl > 0 {
+            c.perf.apply_channel_len = acl;
+        }
+    })
+    .await?;
     // the remote part is produced up front (the origins are not under test), delivery is concurrent
     let mut frames: Vec<bytes::Bytes> = vec![];
     for (o, ops) in &case.remote {
@@ -274,6 +288,34 @@ async fn run_mix(case: &MixCase, info: &mut CaseInfo, root: std::path::PathBuf) 
             cl.remote_versions += 1;
         }
     }
+    // several chunked versions: every version's first chunk comes last, the final chunks of all of them arrive
+    // back to back, so the node finishes buffering many versions while the apply loop is busy
+    let mut tails: Vec<bytes::Bytes> = vec![];
+    for (k, rows) in case.chunked.iter().enumerate() {
+        let oi = k % cl.origins.len();
+        let sql = format!(
+            "WITH RECURSIVE c(x) AS (SELECT 1 UNION ALL SELECT x + 1 FROM c WHERE x < {rows}) INSERT INTO inst (svc_id, node, port, up) SELECT {} + x, 'ch{k}_' || x, x, 1 FROM c",
+            1000 * (k + 2)
+        );
+        let (st, ver, res) = cl.origins[oi].transact(vec![Statement::Simple(sql)]).await;
+        ensure!(st == 200, "infra", "chunked origin transaction: {st} {res:?}");
+        if let Some(v) = ver {
+            let msgs = cl.origins[oi].collect_broadcast(v, None).await.map_err(|e| Fail::infra(e.0))?;
+            for (i, m) in msgs.iter().enumerate().rev() {
+                let f = uni_frame(m, Some(ClusterId(0)))?;
+                if i == 0 && msgs.len() > 1 {
+                    tails.push(f);
+                } else {
+                    big_frames.push(f);
+                }
+            }
+            cl.remote_versions += 1;
+        }
+    }
+    if tails.len() >= 2 {
+        info.class("several-versions-complete-back-to-back");
+    }
+    big_frames.extend(tails);
     let api = cl.b.api_addr;
     let gossip = cl.b.agent.gossip_addr();
     let ct: Vec<(String, String)> = vec![("content-type".into(), "application/json".into())];
